@@ -423,7 +423,11 @@ func genCase(t *rapid.T) gsim.Case {
 		case 11:
 			c.Steps = append(c.Steps, gsim.Step{Op: "rebalance"})
 		case 12:
-			c.Steps = append(c.Steps, gsim.Step{Op: "close", Member: m})
+			if rapid.IntRange(0, 2).Draw(t, "closeKind") == 0 {
+				c.Steps = append(c.Steps, gsim.Step{Op: "commitclose", Member: m, Pick: rapid.IntRange(0, 20).Draw(t, "pick"), UpTo: rapid.Bool().Draw(t, "upTo"), N: rapid.SampledFrom([]int{0, 5, 30, 120, 250}).Draw(t, "closeAfterMs")})
+			} else {
+				c.Steps = append(c.Steps, gsim.Step{Op: "close", Member: m})
+			}
 		case 13:
 			c.Steps = append(c.Steps, gsim.Step{Op: "crash", Member: m}, gsim.Step{Op: "sleep", N: 5}, gsim.Step{Op: "evict", Member: m})
 		case 14:
